@@ -137,6 +137,29 @@ def generate(repo):
     except Exception as ex:
         items["post_filter_fallback"] = "miss:%s" % ex
 
+    # degenerate-vector guards: the exact scan and the index must call the SAME vectors degenerate (norm == 0.0)
+    idx_guard = scan_guard = False
+    try:
+        hs = strip_comments(read(repo, "tensor_store/src/hnsw.rs"))
+        hs_impl = hs[re.search(r"impl\s+EmbeddingStorage\b", hs).end():]
+        pat = r"if\s+\w+\s*==\s*0\.0\s*\|\|\s*\w+\s*==\s*0\.0\s*\{\s*return\s+1\.0\s*;"
+        oks = []
+        for fn in ("cosine_distance_dense", "cosine_distance_dense_with_registry", "cosine_distance_sparse"):
+            _, body = find_fn(hs_impl, fn)
+            conds = re.findall(r"\bif\s+([^{]+)\{\s*return\s+1\.0", body)
+            oks.append(bool(re.search(pat, body)) and len(conds) == 1)
+        idx_guard = all(oks)
+        items["index_zero_norm_guard"] = "translated"
+    except Exception as ex:
+        items["index_zero_norm_guard"] = "miss:%s" % ex
+    try:
+        _, body = find_fn(impl, "cosine_similarity")
+        conds = re.findall(r"\bif\s+([^{]+)\{\s*return\s+0\.0", body)
+        scan_guard = len(conds) == 1 and bool(re.fullmatch(r"\w+\s*==\s*0\.0\s*\|\|\s*\w+\s*==\s*0\.0\s*", conds[0]))
+        items["scan_zero_norm_guard"] = "translated"
+    except Exception as ex:
+        items["scan_zero_norm_guard"] = "miss:%s" % ex
+
     arms = "\n".join("  | %d => %s" % (mid, "true" if inv.get(mid) else "false") for mid, _, _ in MUTATORS)
     names = "\n".join("   %d %s" % (mid, fn) for mid, fn, _ in MUTATORS)
     text = HEADER + (
@@ -152,6 +175,10 @@ def generate(repo):
         "(* search_with_post_filter / search_filtered_in_collection: too few matches among the oversampled\n"
         "   candidates while more were cut off => exact search over the matching embeddings *)\n"
         "Definition gen_post_filter_fallback : bool := %s.\n"
-        % (names, arms, keep, eps, num, den, "true" if guard else "false", "true" if fallback else "false")
+        "(* is the degenerate-vector test `norm == 0.0` (and nothing else) in EmbeddingStorage::cosine_distance_{dense,\n"
+        "   dense_with_registry,sparse} (index) / in VectorEngine::cosine_similarity (exact scan) *)\n"
+        "Definition gen_index_zero_guard_exact : bool := %s.\nDefinition gen_scan_zero_guard_exact : bool := %s.\n"
+        % (names, arms, keep, eps, num, den, "true" if guard else "false", "true" if fallback else "false",
+           "true" if idx_guard else "false", "true" if scan_guard else "false")
     )
     return text, items
